@@ -19,6 +19,7 @@ import (
 	sdkdb "github.com/cosmos/cosmos-db"
 	"github.com/cosmos/cosmos-sdk/server"
 	"github.com/ethereum/go-ethereum/common"
+	"github.com/ethereum/go-ethereum/common/hexutil"
 	"github.com/ethereum/go-ethereum/core"
 	ethtypes "github.com/ethereum/go-ethereum/core/types"
 	"github.com/stretchr/testify/require"
@@ -27,6 +28,7 @@ import (
 	"github.com/EscanBE/evermint/v12/indexer"
 	rpcbackend "github.com/EscanBE/evermint/v12/rpc/backend"
 	evmserver "github.com/EscanBE/evermint/v12/server"
+	rpctypes "github.com/EscanBE/evermint/v12/rpc/types"
 	evertypes "github.com/EscanBE/evermint/v12/types"
 	evmtypes "github.com/EscanBE/evermint/v12/x/evm/types"
 
@@ -91,6 +93,15 @@ func (f *fakeCmt) BlockResults(_ context.Context, h *int64) (*coretypes.ResultBl
 		return b, nil
 	}
 	return nil, fmt.Errorf("block results %d not found", hh)
+}
+func (f *fakeCmt) ConsensusParams(_ context.Context, h *int64) (*coretypes.ResultConsensusParams, error) {
+	cp := cmttypes.DefaultConsensusParams()
+	cp.Block.MaxGas = 3_000_000
+	hh := int64(0)
+	if h != nil {
+		hh = *h
+	}
+	return &coretypes.ResultConsensusParams{BlockHeight: hh, ConsensusParams: *cp}, nil
 }
 func (f *fakeCmt) Status(context.Context) (*coretypes.ResultStatus, error) {
 	f.mu.Lock()
@@ -356,6 +367,39 @@ func TestEngineIndexer(t *testing.T) {
 			logTotal += wantLogs
 			ethIdx++
 			_ = core.IntrinsicGas
+		}
+		// ---- the block view: the Ethereum transactions that passed the ante handler, in block order (also when Cosmos
+		// transactions stand between or before them), and the gas they used according to consensus
+		if blk, err := backend.GetBlockByNumber(rpctypes.BlockNumber(h), false); err != nil || blk == nil {
+			if ethIdx > 0 {
+				p.Oracle("C14-rpc-block", "eth_getBlockByNumber fails for an indexed block with %d Ethereum transactions (block %d): %v", ethIdx, h, err)
+			}
+		} else {
+			var diffs []string
+			if gu, ok := blk["gasUsed"].(*hexutil.Big); !ok || gu.ToInt().Uint64() != cum {
+				diffs = append(diffs, fmt.Sprintf("gasUsed %v want %d", blk["gasUsed"], cum))
+			}
+			var want []common.Hash
+			for _, e := range eths {
+				if e.obs.hasEthEv {
+					want = append(want, e.hash)
+				}
+			}
+			got, _ := blk["transactions"].([]interface{})
+			if len(got) != len(want) {
+				diffs = append(diffs, fmt.Sprintf("%d transactions want %d", len(got), len(want)))
+			} else {
+				for k := range got {
+					if hh, ok := got[k].(common.Hash); !ok || hh != want[k] {
+						diffs = append(diffs, fmt.Sprintf("transaction %d is %v want %s", k, got[k], want[k].Hex()))
+						break
+					}
+				}
+			}
+			if len(diffs) > 0 {
+				p.Oracle("C14-rpc-block", "eth_getBlockByNumber differs from the consensus results (block %d, %d Ethereum of %d transactions): %s", h, len(want), len(eths), strings.Join(diffs, "; "))
+			}
+			p.Count("rpc-block-view")
 		}
 	}
 	_ = evmserver.ServiceName
